@@ -4,6 +4,7 @@ import z3
 from sx.harness import Case, exc_key
 from sx.core import lift, term_of, SBytes, SStr
 from props import _loop as L
+from sx.stubs import patched
 
 PROPERTY = "C38"
 NEED_STR_CONSTANTS = True
@@ -19,7 +20,13 @@ FUNCTIONS = ["paramiko.transport.Transport.run", "paramiko.transport.Transport._
              "paramiko.auth_handler.AuthHandler._parse_userauth_info_response", "paramiko.channel.Channel._handle_request",
              "paramiko.channel.Channel._feed", "paramiko.channel.Channel._feed_extended", "paramiko.channel.Channel._window_adjust",
              "paramiko.message.Message.get_text", "paramiko.message.Message.get_string", "paramiko.message.Message.get_list"]
-STUBS = ["scripted Packetizer I/O; null key-exchange engine (the real kex engines' own message parsers are C06/C08's subject); "
+FUNCTIONS += ["paramiko.kex_curve25519.KexCurve25519.parse_next", "paramiko.kex_curve25519.KexCurve25519._parse_kexecdh_init",
+              "paramiko.kex_curve25519.KexCurve25519._parse_kexecdh_reply", "paramiko.kex_ecdh_nist.KexNistp256.parse_next",
+              "paramiko.kex_ecdh_nist.KexNistp256._parse_kexecdh_init", "paramiko.kex_ecdh_nist.KexNistp256._parse_kexecdh_reply"]
+STUBS = ["kex engines (peer public key cases): X25519PublicKey.from_public_bytes / EllipticCurvePublicKey.from_encoded_point replaced by "
+         "their documented contract (ValueError for bytes that are not a key; length rule for X25519, solver's choice for a 65-byte "
+         "point); the exception the engine lets out is what Transport.run saves unchanged",
+         "scripted Packetizer I/O; null key-exchange engine in the run-loop cases (the kex engines' group arithmetic is C06/C08's subject); "
          "logging ServerInterface", "channel tables: association lists keyed by symbolic ids", "struct/BytesIO models for Message",
          "UTF-8 decoding of symbolic bytes: validity automaton (invalid sequences are solver-found inputs)"]
 ASSUMPTIONS = ["packet layer: an arbitrary wire buffer of two cipher blocks + MAC whose MAC/tag check is allowed to succeed (an "
@@ -33,7 +40,7 @@ EXPLANATION = ("Payload bytes, declared lengths, UTF-8 validity and counts are a
                "exception the real run loop saves.")
 
 STATES = ["server-after-kex", "server-after-service-request", "server-authenticated-with-channel",
-          "client-after-kex", "client-auth-pending", "client-with-channel"]
+          "client-after-kex", "client-auth-pending", "client-with-channel", "client-password-fallback-interactive"]
 
 
 def _ok(exc):
@@ -93,6 +100,37 @@ def message_case(state, maxpay):
                 t.auth_handler.username = "u"
                 t.auth_handler.password = "pw"
                 t.auth_handler.auth_event = __import__("threading").Event()
+            if state == "client-password-fallback-interactive":
+                # auth_password() was refused with "keyboard-interactive" allowed and fell back to answering a single prompt:
+                # the REAL handler closure of Transport.auth_password is obtained by running that method over a recording
+                # stand-in for AuthHandler, then installed in a real AuthHandler waiting for the server's INFO_REQUEST
+                import paramiko.transport as PT
+                from paramiko.ssh_exception import BadAuthenticationType
+                got = {}
+
+                class Rec:
+                    def __init__(self, tr):
+                        self.n = 0
+
+                    def auth_password(self, *a):
+                        pass
+
+                    def auth_interactive(self, username, handler, event, submethods=""):
+                        got["handler"] = handler
+
+                    def wait_for_response(self, ev):
+                        self.n += 1
+                        if "handler" not in got:
+                            raise BadAuthenticationType("refused", ["keyboard-interactive"])
+                        return []
+                with patched([(PT, "AuthHandler", Rec)]):
+                    t.initial_kex_done = True
+                    t.auth_password("u", "pw")
+                t.auth_handler = AuthHandler(t)
+                t.auth_handler.auth_method = "keyboard-interactive"
+                t.auth_handler.username = "u"
+                t.auth_handler.interactive_handler = got["handler"]
+                t.auth_handler.auth_event = __import__("threading").Event()
             if state == "client-with-channel":
                 ch = Channel(0)
                 t._channels.put(0, ch)
@@ -127,8 +165,80 @@ def banner_case(maxlen):
                 {"banner": "0..%d chars over 'SH-2.019 x'" % maxlen}, max_paths=200000, wall_s=1500)
 
 
+class _Reached(Exception):
+    pass
+
+
+class _KM:
+    """message stand-in handing out the fields in order (the Message decoders themselves are the message cases' subject)"""
+
+    def __init__(self, *vals):
+        self.v = list(vals)
+
+    def _n(self):
+        return self.v.pop(0)
+    get_mpint = get_string = get_binary = get_int = get_text = _n
+
+
+def kex_pubkey_case(kind, server):
+    """the peer's ephemeral public key inside KEXECDH_INIT / KEXECDH_REPLY is untrusted bytes handed to the crypto library; the
+    library's documented contract (ValueError for bytes that are not a key) is the environment, the engine's reaction is real"""
+    def fn(ctx):
+        from paramiko.ssh_exception import SSHException
+        n = ctx.choice("len(peer_public_key)", [0, 5, 31, 32, 33, 65])
+        point = ctx.bytes("peer_public_key", n)
+        t = L.make_transport(server, L.Script([]), L.make_server_interface([]) if server else None)
+        setkh = []
+        t._set_K_H = lambda *a: setkh.append(a)
+        if kind == "curve25519":
+            import paramiko.kex_curve25519 as KM
+
+            class XPK:
+                @staticmethod
+                def from_public_bytes(data):
+                    if len(data) != 32:
+                        raise ValueError("An X25519 public key is 32 bytes long")
+                    raise _Reached()
+            eng = KM.KexCurve25519(t)
+            stubs = [(KM, "X25519PublicKey", XPK)]
+            ptype = 30 if server else 31
+        else:
+            import paramiko.kex_ecdh_nist as KM
+            bad = ctx.flag("library-rejects-the-point") if n == 65 else True
+
+            class PK:
+                @staticmethod
+                def from_encoded_point(curve, data):
+                    if bad:
+                        raise ValueError("Invalid EC key")
+                    raise _Reached()
+
+            class EC:
+                EllipticCurvePublicKey = PK
+                ECDH = staticmethod(lambda: None)
+            eng = KM.KexNistp256(t)
+            stubs = [(KM, "ec", EC)]
+            ptype = 30 if server else 31
+        exc = None
+        with ctx.patches(stubs):
+            try:
+                eng.parse_next(ptype, _KM(point) if server else _KM(b"hostkey", point, b"sig"))
+            except _Reached:
+                ctx.reach("key-accepted-by-the-library")
+                return
+            except Exception as e:                  # what Transport.run would save and get_exception()/start_client() report
+                exc = e
+        ctx.prove(len(setkh) == 0, "no-key-derivation-from-a-rejected-public-key")
+        _classify(ctx, exc)
+    return Case("kex-peer-public-key-%s-%s" % (kind, "server" if server else "client"), fn,
+                ["failure-is-an-ssh-exception-or-none"],
+                {"engine": kind, "role": "server" if server else "client", "peer public key": "0,5,31,32,33,65 symbolic bytes",
+                 "library": "contract stub: ValueError for bytes that are not a key"})
+
+
 def cases(tier):
     k = 8 if tier == "quick" else 11      # 16 bytes exhaust a 200000-path budget per state (measured); 11 is what finishes
     from props.C02 import tamper_case
     pk = [tamper_case("classic", 8, 12, 2, True), tamper_case("etm", 8, 12, 2, True), tamper_case("aead", 16, 16, 2, True)]
-    return [message_case(s, k) for s in STATES] + [banner_case(9 if tier == "quick" else 11)] + pk
+    kx = [kex_pubkey_case(kind, srv) for kind in ("curve25519", "ecdh-nistp256") for srv in (True, False)]
+    return [message_case(s, k) for s in STATES] + [banner_case(9 if tier == "quick" else 11)] + pk + kx
